@@ -37,6 +37,11 @@ func init() {
 	add("c03-sub-format-errors-unchecked", "C03.sub", dec, "\tif dv == nil || dv.Errors() != nil {\n\t\td.IOPanic(err, \"\", \"Format: decode\")", "\tif dv == nil {\n\t\td.IOPanic(err, \"\", \"Format: decode\")", "Format:adopt-after-test")
 	add("c03-sub-len-test-after-link", "C03.sub", dec, "\tif dv == nil || dv.Errors() != nil {\n\t\treturn nil, nil, err\n\t}\n\n\td.AddChild(dv)\n\tif _, err := d.bitBuf.SeekBits(nBits, io.SeekCurrent); err != nil {", "\tif dv == nil {\n\t\treturn nil, nil, err\n\t}\n\n\td.AddChild(dv)\n\tif dv.Errors() != nil {\n\t\treturn nil, nil, err\n\t}\n\tif _, err := d.bitBuf.SeekBits(nBits, io.SeekCurrent); err != nil {", "TryFieldFormatLen:adopt-after-test")
 	add("c03-cover-range-nofill", "C03.cover", dec, "\t\tFillGaps:    true,\n\t\tIsRoot:      false,\n\t\tRange:       ranges.Range{Start: firstBit, Len: nBits},", "\t\tFillGaps:    false,\n\t\tIsRoot:      false,\n\t\tRange:       ranges.Range{Start: firstBit, Len: nBits},", "TryFieldFormatRange:FillGaps")
+	// inside: a zero-length fast path in front of the remaining-input test
+	add("c03-inside-text-zero-fastpath", "C03.inside", "pkg/decode/read.go", "\tbytesLeft := d.BitsLeft() / 8\n\tif int64(nBytes) > bytesLeft {\n\t\treturn \"\", fmt.Errorf(\"tryText nBytes", "\tif nBytes == 0 {\n\t\treturn \"\", nil\n\t}\n\tbytesLeft := d.BitsLeft() / 8\n\tif int64(nBytes) > bytesLeft {\n\t\treturn \"\", fmt.Errorf(\"tryText nBytes", "left-guards-every-success|(*pkg/decode.D).tryText")
+	add("c03-inside-nulllen-test-skipped-for-zero", "C03.inside", "pkg/decode/read.go", "\tif int64(fixedBytes) > bytesLeft {\n\t\treturn \"\", fmt.Errorf(\"tryTextNullLen", "\tif int64(fixedBytes) > bytesLeft && fixedBytes > 0 {\n\t\treturn \"\", fmt.Errorf(\"tryTextNullLen", "left-guards-every-success|(*pkg/decode.D).tryTextNullLen")
+	// readers: a leaf reader reads the byte-rounded buffer instead of the bits asked for
+	add("c03-readers-bigint-reads-whole-bytes", "C03.readers", "pkg/decode/read.go", "\t_, err := bitio.ReadFull(d.bitBuf, buf, int64(nBits))\n\tif err != nil {\n\t\treturn nil, err\n\t}", "\t_, err := bitio.ReadFull(d.bitBuf, buf, int64(len(buf))*8)\n\tif err != nil {\n\t\treturn nil, err\n\t}", "tryBigIntEndianSign:read")
 	// generalised forms must still decide: compare-and-select minimum with the wrong direction
 	add("c03-minmax-select-wrong-way", "C03.minmax", "pkg/ranges/ranges.go", "\tminStart := min(a.Start, b.Start)\n", "\tminStart := a.Start\n\tif b.Start > minStart {\n\t\tminStart = b.Start\n\t}\n", "MinMax:start")
 }
